@@ -35,7 +35,7 @@ func TestVerif_C10_Breaker(t *testing.T) {
 	fnSendRequest = c10Transport
 	defer func() { fnSendRequest = old }()
 
-	total := r.N(150, 1200)
+	total := r.N(150, 5000)
 	for i := 0; i < total; i++ {
 		if !r.Mine(i) {
 			continue
